@@ -274,6 +274,21 @@ func init() {
 		st.randCnt = 0
 		return nil
 	}
+	intrinsics[vrt+"Native"] = func(ex *Exec, st *State, fr *Frame, c *ssa.Call, a []Value) Value {
+		return mkBool(false)
+	}
+	intrinsics[vrt+"RandLog"] = func(ex *Exec, st *State, fr *Frame, c *ssa.Call, a []Value) Value {
+		// [][]byte of the octets delivered by every successful read so far
+		bt := types.NewSlice(types.Typ[types.Uint8])
+		o := st.newObject(objArr, bt)
+		for _, d := range st.draws {
+			if d.Kind == "rand" {
+				o.elems = append(o.elems, ex.newBytes(st, d.ts))
+			}
+		}
+		n := c64(len(o.elems))
+		return &SliceVal{obj: o.id, off: c64(0), len: n, cap: n, elem: bt}
+	}
 	intrinsics[vrt+"RandReads"] = func(ex *Exec, st *State, fr *Frame, c *ssa.Call, a []Value) Value {
 		return c64(st.randCnt)
 	}
